@@ -470,6 +470,9 @@ def run(ctx):
         done.add(prov.key)
         for x in fx.effects_of(prov):
             if x.kind == "STRUCT" and re.search(r"pop|del |remove|rebuilt|\[a:b\]|clear", x.detail):
+                par = getattr(x.node, "_parent", None)
+                if ".pop()" in x.detail and isinstance(par, (ast.Call, ast.Assign)):
+                    continue  # the popped token is re-used (moved), not deleted
                 uk = "%s:%s" % (x.fi.key, x.detail)
                 if uk in seen or any(uk.startswith(k.split(":set_tokens")[0]) and "set_tokens" in k and "set_tokens" in uk for k in seen):
                     continue
